@@ -120,13 +120,15 @@ def applyPresent (ops : Ops K D T) (ns : Nat) (child : D → T → Option T) (d 
     | none => none
     | some n => (child d (ops.setNames t n)).map some
 
-/-- case 3 of `apply_diff_map` (key only in the diff): only `Add` is possible; the node is created from the key, the
-name is stored with a plain index assignment (no first-namespace check here) -/
+/-- case 3 of `apply_diff_map` (key only in the diff): only `Add` is possible; the node is created from the key and the
+name goes through `change_name` like a name added to an existing entry (first namespace refused, old value `None`) -/
 def applyAbsent (ops : Ops K D T) (ns N : Nat) (child : D → T → Option T) (k : K) (d : D) : Option T :=
   match ops.action d with
   | .add b =>
     let t := ops.fromKey N k
-    child d (ops.setNames t ((ops.names t).set ns (some b)))
+    match changeName ns none (some b) (ops.names t) with
+    | none => none
+    | some n => child d (ops.setNames t n)
   | _ => none
 
 /-- first loop of `apply_diff_map`: over the targets in order; applied diffs are `swap_remove`d from the diff map -/
